@@ -153,7 +153,7 @@ func (rn *runner) xprocCase(r int, mine []int) {
 				continue
 			}
 			c.Count("generations_helper", 1)
-			rn.compare(rec.World, pd, "other-process", r0, genOut(xp.Out), ref.ties, map[string]any{"helper_round": r})
+			rn.compare(rec.World, pd, "other-process", r0, genOut(xp.Out), ref.shape, map[string]any{"helper_round": r})
 		}
 	}
 	_, _ = io.Copy(io.Discard, stdout)
@@ -180,7 +180,7 @@ func (rn *runner) ref(i int) *refEntry {
 		w := worldRng(rn.c, i)
 		env := buildEnv(w, nil)
 		defer env.close()
-		e = &refEntry{proxies: w.Proxies, ties: w.Ties, out: map[string]genOut{}}
+		e = &refEntry{proxies: w.Proxies, shape: shapeOf(w), out: map[string]genOut{}}
 		for _, pd := range w.Proxies {
 			e.out[pd.Name] = env.generate(env.setupProxy(pd), pd)
 		}
